@@ -887,6 +887,10 @@ def systematic(tier):
                                                                   {"csm": "first", "csm_opts": [], "end": "close"}],
                                 "reqs": [{"tag": k, "code": rc.GET, "len": 0, "seed": k + 1, "opts": []} for k in range(3)],
                                 "chunk": {"c2s": WHOLE, "s2c": ch}})
+    for end in ("close", "release", "abort", "reset"):
+        out.append({"w": "Br", "gap": 2.0, "reuse_remote": True, "conns": [{"csm": "first", "csm_opts": [], "end": end}] * 3,
+                    "reqs": [{"tag": k, "code": rc.GET, "len": 0, "seed": k + 1, "opts": []} for k in range(3)],
+                    "chunk": {"c2s": WHOLE, "s2c": WHOLE}})
     return out
 
 
@@ -1391,6 +1395,7 @@ def start_request(sim, ctx, m, uri, outcomes, tag):
         else:
             rec["outcome"] = "response"
             rec["response"] = snapshot(f.result())
+            rec["raw_response"] = f.result()
         sim.log("app", "done", tag, rec["outcome"], type(rec.get("exception")).__name__ if rec.get("exception") is not None else
                 (rc.code_str(rec["response"]["code"]) if rec.get("response") else None))
 
@@ -1550,7 +1555,7 @@ def gen_br(r):
         conns.append({"csm": r.weighted([(6, "first"), (2, "none"), (2, "late")]) if j else r.weighted([(8, "first"), (1, "none"), (1, "late")]),
                       "csm_opts": r.choice([[], [[2, "100000"], [4, ""]], [[2, "0480"]]]),
                       "end": r.choice(["close", "release", "abort", "reset"])})
-    return {"w": "Br", "conns": conns, "gap": r.choice([0.5, 2.0, 30.0]),
+    return {"w": "Br", "conns": conns, "gap": r.choice([0.5, 2.0, 30.0]), "reuse_remote": r.chance(0.3),
             "reqs": [{"tag": k, "code": r.choice([rc.GET, rc.POST]), "len": r.choice([0, 5, 13]), "seed": k + 1, "opts": []} for k in range(n)],
             "chunk": {"c2s": WHOLE, "s2c": r.choice([WHOLE, {"mode": "bytes"}, {"mode": "fixed", "size": 3, "max_small": 100000}])}}
 
@@ -1624,9 +1629,43 @@ def run_br(sim, scn, chunk, wid, nworld):
     cli = loop.run_until_complete(setup())
     t0 = loop.now
     uri = "coap+tcp://[%s]" % ip
+    def start_k(k, q):
+        prev = outcomes.get(scn["reqs"][k - 1]["tag"]) if k else None
+        if scn.get("reuse_remote") and prev is not None and prev.get("raw_response") is not None:
+            # the application addresses the peer through the remote of the response it got before (as the library's
+            # own block-wise layer does for follow-up requests): that connection is gone by now
+            sim.probe("request_to_remote_of_earlier_response")
+            msg = to_aiocoap(bc_request_msg(q))
+            msg.remote = prev["raw_response"].remote
+            rec = {"done": 0, "outcome": None, "reused_remote": True}
+            outcomes[q["tag"]] = rec
+            req = cli.request(msg, handle_blockwise=False)
+
+            def done(f, rec=rec, tag=q["tag"]):
+                rec["done"] += 1
+                rec["t"] = loop.now
+                if f.cancelled():
+                    rec["outcome"] = "cancelled"
+                elif f.exception() is not None:
+                    rec["outcome"], rec["exception"] = "error", f.exception()
+                else:
+                    rec["outcome"], rec["response"], rec["raw_response"] = "response", snapshot(f.result()), f.result()
+                sim.log("app", "done", tag, rec["outcome"])
+            req.response.add_done_callback(done)
+            sim.log("app", "start", q["tag"])
+            return
+        start_request(sim, cli, bc_request_msg(q), uri, outcomes, q["tag"])
+
     for k, q in enumerate(scn["reqs"]):
-        loop.at(t0 + k * scn.get("gap", 2.0), start_request, sim, cli, bc_request_msg(q), uri, outcomes, q["tag"])
+        loop.at(t0 + k * scn.get("gap", 2.0), start_k, k, q)
     sim.run()
+    for tag, rec in outcomes.items():
+        if rec.get("reused_remote"):
+            if rec["outcome"] is None:
+                sim.violation("C15/pending-request-not-failed", {"tag": tag, "why": "sent to the remote of an earlier response whose connection "
+                                                                  "had ended (close / Release / Abort / reset) long before", "world": wid, "workload": "Br"})
+            elif rec["outcome"] == "error" and not isinstance(rec["exception"], error.NetworkError):
+                sim.violation("C15/pending-request-wrong-error", {"tag": tag, "exception": repr(rec["exception"])[:160], "world": wid, "workload": "Br"})
     sim.probe("successive_connections", len(sn.conns))
     if len(sn.conns) > 1:
         sim.probe("reconnect")
